@@ -45,9 +45,21 @@ CHECKS = {
                 "_prepare_append is covered by exploration (tiling check of the reference reader), not by a theorem yet.",
         "technique": "Coq proof of header round trip (what append preserves) + history exploration with an independent reader",
     },
+    "C12": {
+        "text": "Read sessions as a state machine (RSession.v: fp position, worker target map, per-folder decoder cache, log of file "
+                "operations): after reset() every call gives the fresh-session result; for every call sequence of any length obeying "
+                "the quantifier's discipline each result equals the fresh-session result; test()/testzip() verdicts right in every "
+                "state; no transition writes to the archive and mode 'r' opens 'rb'. Correspondence and exploration: every disciplined "
+                "call sequence up to length 3 (quick) / 4-5 (thorough, 618k sequences) on 28 archive variants, compared call by call "
+                "(result, file operations, fp position) with the model and with the property (fresh results, right verdicts, SHA-256).",
+        "note": "Trusted: Coq kernel; RSession.v is a hand model tied by the per-call correspondence; assumptions: one packed stream "
+                "per folder, no folder-level CRC, regular files and directories. The repairs to testzip() made in /repo are probed by "
+                "the harness (model switches a_fixz/a_fixp) so that model and code stay in step.",
+        "technique": "Coq proof by invariant over the session state machine + exhaustive call-sequence correspondence",
+    },
 }
 
 _PENDING = "check not built yet in this session (planned, see DESIGN.md section 5); not a statement that proof is inapplicable"
 NOT_APPLICABLE = {p: _PENDING for p in
-                  ["C01", "C02", "C03", "C04", "C05", "C09", "C10", "C11", "C12", "C13", "C14", "C15",
+                  ["C01", "C02", "C03", "C04", "C05", "C09", "C10", "C11", "C13", "C14", "C15",
                    "C16", "C18", "C19", "C20"]}
